@@ -10,10 +10,10 @@
 (*           each created file went: "outdir" | "inputdir" | "elsewhere")] *)
 (***************************************************************************)
 EXTENDS Naturals, Sequences, FiniteSets, TLC, Json
-V10 == {"v10xml", "v10json", "v10yaml"}
+V10 == {"v10xml", "v10json", "v10jsontab", "v10yaml"}        \* v10jsontab: JSON indented with tab characters
 V11 == {"v11xml", "v11json", "v11yaml"}
 Bad == {"empty", "text", "malformed", "foreign"}
-ExtOf(k) == IF k \in {"v10xml", "v11xml"} THEN "xml" ELSE IF k \in {"v10json", "v11json"} THEN "json" ELSE "yaml"
+ExtOf(k) == IF k \in {"v10xml", "v11xml"} THEN "xml" ELSE IF k \in {"v10json", "v10jsontab", "v11json"} THEN "json" ELSE "yaml"
 FileKinds == {[kind |-> k, ext |-> ExtOf(k)] : k \in V10 \cup V11} \cup {[kind |-> k, ext |-> e] : k \in Bad, e \in {"xml", "json", "yaml"}}
 Tools == {"odmlconvert", "odmltordf"}
 \* the format converter works on directories of files of the one kind its target expects
